@@ -174,6 +174,8 @@ struct StrTarget
         SA.junk_fill = p.knob("alloc_junk", 1) != 0;
         SA.reuse_lifo = p.knob("alloc_reuse", 0) != 0;
         SA.junk_seed = (unsigned char)p.knob("junk_seed", 0x5b);
+        SA.passthrough = p.knob("alloc_default", 0) != 0;
+        if (SA.passthrough) c.st.add("probe.default_allocator_a_alloc_");
         SA.classify = [](void *addr, size_t) -> char const * {
             char const *s = g_shared->site;
             if (strstr(s, "_new")) return "str_header";
@@ -573,6 +575,7 @@ struct StrTarget
             if (idx >= cap) { if (q) c.fail("out-of-range-access-returned-pointer", "a_str_at", "index %zu >= capacity %zu returned a pointer", idx, cap); }
             else if (!q || !SA.owns(q, 1)) c.fail("returned-pointer-outside-storage", "a_str_at", "index %zu < capacity %zu: pointer missing or outside owned storage", idx, cap);
             else if (idx < len && *q != x.M[idx]) c.fail("access-wrong-element", "a_str_at", "byte %zu differs from the model", idx);
+            if (c.ok() && idx < cap && a_str_at_(s, idx) != q) c.fail("access-wrong-element", "a_str_at_", "unchecked and checked accessors disagree for index %zu", idx);
             if (!c.ok()) break;
             int64_t const mag = idx > (size_t)INT64_MAX ? INT64_MAX : (int64_t)idx;
             int64_t const i = (o.a[2] & 1) ? -mag : mag;
@@ -623,6 +626,7 @@ static inline void gen_str_plan(Rng &r, Plan &p, bool for_faults, int tier)
     p.set("target", 2);
     p.set("alloc_move", r.chance(1, 2)); p.set("alloc_junk", r.chance(3, 4)); p.set("alloc_reuse", r.chance(1, 4));
     p.set("junk_seed", (int64_t)r.below(256));
+    p.set("alloc_default", r.chance(1, 6));
     static const int64_t ML[] = {8, 16, 40, 200, 600};
     p.set("maxlen", r.pick(ML));
     p.set("heap", r.chance(1, 2));
